@@ -138,6 +138,51 @@ pub fn put_with_kept_cursor<'tx>(tx: &Tx<'tx>, op: &'tx Op, before: &[Bytes], va
     }
 }
 
+/// Executes `op` while iterators of the bucket it addresses have been created but not yet started
+/// (a cursor, a full range, the pair and the bucket listings); started after the operation they must
+/// show the bucket as it is now (`after`: the model's bucket at `op.path()` after the operation).
+pub fn exec_op_with_unstarted_iters<'tx>(tx: &Tx<'tx>, op: &'tx Op, owned: bool, after: Option<&BucketM>) -> (Ret, Option<String>) {
+    if op.path().is_empty() || after.is_none() {
+        return (exec_op(tx, op, owned), None);
+    }
+    let after = after.unwrap();
+    let r = catch_unwind(AssertUnwindSafe(|| -> (Ret, Option<String>) {
+        let p: Vec<&'tx [u8]> = op.path().iter().map(|p| p.as_slice()).collect();
+        let holder = match resolve(tx, &p) {
+            Ok(Some(h)) => h,
+            _ => return (exec_op(tx, op, owned), None),
+        };
+        let cur = holder.cursor();
+        let rng = holder.range::<std::ops::RangeFull>(..);
+        let pairs = holder.kv_pairs();
+        let subs = holder.buckets();
+        let ret = exec_op(tx, op, owned);
+        if matches!(ret, Ret::Panic(_)) {
+            return (ret, None);
+        }
+        let all: Vec<Bytes> = after.items.keys().cloned().collect();
+        let kvs: Vec<Bytes> = after.items.iter().filter(|(_, it)| matches!(it, Item::Kv(_))).map(|(k, _)| k.clone()).collect();
+        let bks: Vec<Bytes> = after.items.iter().filter(|(_, it)| matches!(it, Item::Bucket(_))).map(|(k, _)| k.clone()).collect();
+        let got_cur: Vec<Bytes> = cur.take(SCAN_CAP).map(|d| data_to_pair(&d).0).collect();
+        let got_rng: Vec<Bytes> = rng.take(SCAN_CAP).map(|d| data_to_pair(&d).0).collect();
+        let got_pairs: Vec<Bytes> = pairs.take(SCAN_CAP).map(|kv| kv.key().to_vec()).collect();
+        let got_subs: Vec<Bytes> = subs.take(SCAN_CAP).map(|(n, _)| n.name().to_vec()).collect();
+        let brief = |v: &Vec<Bytes>| v.iter().take(12).map(|x| show(x)).collect::<Vec<_>>().join(" ");
+        let mut note = None;
+        for (what, got, want) in [("cursor()", &got_cur, &all), ("range(..)", &got_rng, &all), ("kv_pairs()", &got_pairs, &kvs), ("buckets()", &got_subs, &bks)] {
+            if got != want {
+                note = Some(format!("{} created before the operation and started after it yields [{}] ({} entries), the bucket now holds [{}] ({} entries)", what, brief(got), got.len(), brief(want), want.len()));
+                break;
+            }
+        }
+        (ret, note)
+    }));
+    match r {
+        Ok(x) => x,
+        Err(p) => (Ret::Panic(format!("{} @ {}", panic_msg(p), last_panic_loc())), None),
+    }
+}
+
 /// Executes one model op through the public API.  `op` must outlive the database handle.
 /// With `owned` the key / value / name arguments are passed as owned `Vec<u8>` instead of slices.
 pub fn exec_op<'tx>(tx: &Tx<'tx>, op: &'tx Op, owned: bool) -> Ret {
